@@ -32,6 +32,10 @@ def shapes():
         "flt1": lambda: Node("LiteralFloat", value=1.0, dtype="DataType.REAL"),
         "flt-1": lambda: Node("LiteralFloat", value=-1.0, dtype="DataType.REAL"),
         "flt2.5": lambda: Node("LiteralFloat", value=2.5, dtype="DataType.REAL"),
+        # literals close to, but different from, 0 / 1 / -1 (tolerance-based folding must not treat them as such)
+        "flt1e-9": lambda: Node("LiteralFloat", value=1e-9, dtype="DataType.REAL"),
+        "flt1+1e-6": lambda: Node("LiteralFloat", value=1.000001, dtype="DataType.REAL"),
+        "flt-1-1e-6": lambda: Node("LiteralFloat", value=-1.000001, dtype="DataType.REAL"),
         "sym": lambda: Node("Symbol", name="x", dtype="DataType.REAL"),
         "negsym": lambda: Node("Neg", arg=Node("Symbol", name="y", dtype="DataType.REAL"), dtype="DataType.REAL"),
         "py0": lambda: 0,
@@ -167,6 +171,7 @@ def fold_helpers(repo, res):
         "ione": lambda: Node("LiteralInt", value=1, dtype="DataType.INT"),
         "zero": lambda: Node("LiteralFloat", value=0.0, dtype="DataType.REAL"),
         "two": lambda: Node("LiteralFloat", value=2.0, dtype="DataType.REAL"),
+        "near1": lambda: Node("LiteralFloat", value=1.000001, dtype="DataType.REAL"),
         "aa": lambda: Node("ArrayAccess", array=Node("Symbol", name="w", dtype="DataType.REAL"),
                            indices=(Node("Symbol", name="iq", dtype="DataType.INT"),), dtype="DataType.REAL"),
     }
